@@ -20,7 +20,7 @@ ASSUMPTIONS = ['typing introspection is replaced by the Ty algebra; multiple inh
 
 
 def run(ctx):
-    typed.run_cases(ctx, ctx.n(6, 120), 60, ID)
+    typed.run_cases(ctx, ctx.n(30, 200), 60, ID)
 
 
 def replay(ctx, case):
